@@ -116,9 +116,105 @@ theorem positions_equiv_reverse_single (a b k : Nat) (hk : k ≤ b) :
   congr 2
   omega
 
+/-! ### reverse strand, any number of segments -/
+
+def revRow (name : String) (x : (Nat × Nat) × Nat) : GffRow :=
+  { type := "CDS", start := x.1.1, stop := x.1.2, strand := "-", phase := x.2, id := some ("cds-" ++ name), name := some name }
+
+/-- the GFF3 rows of a reverse gene in ascending genomic order: the last row is the 5'-most, its phase is k; the
+other rows carry their own (conformant, possibly non-zero) phases -/
+def revRows (name : String) (k : Nat) (init : List ((Nat × Nat) × Nat)) (last : Nat × Nat) : List GffRow :=
+  init.map (revRow name) ++ [revRow name (last, k)]
+
+def revPositionsGff (rows : List GffRow) : List Nat :=
+  ((rows.zip (List.range rows.length)).reverse).flatMap fun (r, j) =>
+    (rangeUp r.start (if j = rows.length - 1 then r.stop - r.phase else r.stop)).reverse
+
+theorem reverse_flatMap {α β : Type} (f : α → List β) : ∀ (l : List α), (l.flatMap f).reverse = l.reverse.flatMap (fun a => (f a).reverse) := by
+  intro l
+  induction l with
+  | nil => rfl
+  | cons a t ih => simp [List.flatMap_cons, List.reverse_append, ih, List.flatMap_append]
+
+theorem zip_range_lt_flatMap (f : GffRow → Nat → List Nat) (g : GffRow → List Nat) (n : Nat) :
+    ∀ (l : List GffRow) (s : Nat), (∀ r j, j < n → f r j = g r) → s + l.length ≤ n →
+    (l.zip (List.range' s l.length)).flatMap (fun p => f p.1 p.2) = l.flatMap g := by
+  intro l
+  induction l with
+  | nil => intro s _ _; rfl
+  | cons r t ih =>
+    intro s hf hs
+    simp only [List.length_cons, List.range'_succ, List.zip_cons_cons, List.flatMap_cons]
+    simp only [List.length_cons] at hs
+    rw [hf r s (by omega), ih (s + 1) hf (by omega)]
+
+/-- **C14.region_equiv (reverse)** — for a reverse gene of any number of segments whose first codon starts k bases
+in from the 3' end of the last segment (its 5'-most end on the reverse strand), whatever phases the other rows carry,
+the positions taken from the GFF rows equal those of complement(join(...)) with /codon_start = k+1 -/
+theorem positions_equiv_reverse (name : String) (k : Nat) (init : List ((Nat × Nat) × Nat)) (last : Nat × Nat)
+    (hk : k ≤ last.2 + 1 - last.1) (hk2 : k ≤ last.2) :
+    revPositionsGff (revRows name k init last) =
+      (locPositions .compJoin (init.map (·.1) ++ [last])).drop k := by
+  rw [pos_compJoin]
+  unfold revPositionsGff revRows
+  have hlen : (init.map (revRow name) ++ [revRow name (last, k)]).length = init.length + 1 := by simp
+  rw [hlen, List.range_succ, List.zip_append (by simp), List.reverse_append]
+  simp only [List.zip_cons_cons, List.zip_nil_right, List.reverse_cons, List.reverse_nil, List.nil_append,
+    List.singleton_append, List.flatMap_cons, Nat.add_sub_cancel, if_true, revRow]
+  -- the GenBank side
+  rw [pos_join, List.flatMap_append, List.reverse_append]
+  simp only [List.flatMap_cons, List.flatMap_nil, List.append_nil]
+  rw [List.drop_append_of_le_length (by rw [List.length_reverse, rangeUp_length]; exact hk)]
+  rw [← positions_equiv_reverse_single last.1 last.2 k hk2]
+  congr 1
+  -- the other rows: index j < n - 1, so no phase is stripped
+  have hrev := reverse_flatMap
+    (fun (x : GffRow × Nat) => rangeUp x.1.start (if x.2 = init.length then x.1.stop - x.1.phase else x.1.stop))
+    ((init.map (revRow name)).zip (List.range init.length))
+  rw [← hrev]
+  congr 1
+  have h := zip_range_lt_flatMap
+    (fun r j => rangeUp r.start (if j = init.length then r.stop - r.phase else r.stop))
+    (fun r => rangeUp r.start r.stop) init.length (init.map (revRow name)) 0
+    (by intro r j hj; have : j ≠ init.length := by omega
+        simp [this]) (by simp)
+  simp only [List.length_map] at h
+  rw [← List.range_eq_range'] at h
+  rw [h]
+  simp [List.flatMap_map, revRow]
+
+/-- non-vacuity: complement(join(3..6,10..14)) with /codon_start=2: rows (3,6,'-',phase 1) and (10,14,'-',phase 1) -/
+example : revPositionsGff (revRows "g" 1 [((3, 6), 1)] (10, 14)) = [13, 12, 11, 10, 6, 5, 4, 3] ∧
+    (locPositions .compJoin [(3, 6), (10, 14)]).drop 1 = [13, 12, 11, 10, 6, 5, 4, 3] := by decide
+
 /-- non-vacuity: the conformant rows of join(3..6,10..14) carry phases 0 and 2; both descriptions give
 the positions 3,4,5,6,10,…,14 (the original code rejected the GFF form) -/
 example : fwdPositionsGff (fwdRows "g" 0 (3, 6) [((10, 14), 2)]) = [3, 4, 5, 6, 10, 11, 12, 13, 14] ∧
     (locPositions .join [(3, 6), (10, 14)]).drop 0 = [3, 4, 5, 6, 10, 11, 12, 13, 14] := by decide
+
+/-- the positions studied above are the ones the model's GFF reader gives a feature -/
+theorem regionFromGFF_positions (rows : List GffRow) (ref : List Nat) (reg : Region) (h : regionFromGFF rows ref = some reg) :
+    (reg.strand = 1 ∧ reg.positions = fwdPositionsGff rows) ∨ (reg.strand = -1 ∧ reg.positions = revPositionsGff rows) := by
+  unfold regionFromGFF at h
+  split at h
+  · cases h
+  · rename_i r0 rest
+    simp only [] at h
+    split at h
+    · split at h
+      · cases h
+      · split at h
+        · rename_i t ht
+          cases h
+          left; exact ⟨rfl, rfl⟩
+        · cases h
+    · split at h
+      · cases h
+      · split at h
+        · rename_i t ht
+          cases h
+          right; exact ⟨rfl, rfl⟩
+        · cases h
+    · cases h
 
 end Gofasta.Props.C14
